@@ -10,9 +10,10 @@ Status of the statements
   * `method_relation_table`, `handlers_authorize_first`, `handlers_guard_method`: `decide` over the extracted tables.
   * `FullNoReadBeforeAuthz` (no datastore read at all before authorization) does NOT hold on the unchanged tree
     (`Write` and `ActionSearch` resolve the typesystem first): negation witness `write_reads_model_before_authz`.
-  * `FullListStoresFilter guard`: holds for `guard = true` (`liststores_filter_fixed`), fails for `guard = false`
-    (`liststores_leak_unfixed`, finding F3); `liststores_filter_partial` (non-empty granted list) holds for both.
-    `f3Fixed` records which variant the checked tree is (`tie_liststores_guard`).
+  * `liststores_filter`: full strength for the handler of the checked tree (the guard added by /repo commit 31b7057
+    is found by the extractor: `tie_liststores_guard`).  Before that commit the statement was false (finding F3):
+    `liststores_leak_unfixed` is the proved negation witness for the handler without the guard, kept as
+    documentation; `liststores_filter_partial` (non-empty granted list) holds for both variants.
 -/
 import OpenFGAVerif.Model.Authz
 import OpenFGAVerif.Gen.Authz
@@ -525,14 +526,15 @@ theorem liststores_filter_partial (guard : Bool) (all : List Store) (ids : List 
   simp only [hlen, and_false, if_false] at hs
   exact (backend_filter_subset all ids name hne s hs).1
 
-/-- **liststores_filter** for the fixed handler (empty non-nil list = no stores) -/
+/-- the filter statement for the handler with the guard (empty non-nil list = no stores) -/
 theorem liststores_filter_fixed : FullListStoresFilter true := by
   intro all ids name s hs
   by_cases hne : ids = []
   · subst hne; simp [serverListStores] at hs
   · exact liststores_filter_partial true all ids name hne s hs
 
-/-- **F3** negation witness for the unfixed handler: the caller may list but may get nothing, one store exists: it is returned -/
+/-- **F3, before commit 31b7057** (kept as documentation of what was wrong): without the guard the statement is
+false — the caller may list but may get nothing, one store exists: it is returned. -/
 theorem liststores_leak_unfixed : ¬ FullListStoresFilter false := by
   intro h
   have := h [⟨"01STORE", "secret"⟩] [] "" ⟨"01STORE", "secret"⟩ (by decide)
@@ -560,25 +562,44 @@ theorem liststores_subset_all (guard : Bool) (acc : Option (List String)) (all :
       · subst hne; exact nofilter s hs
       · exact (backend_filter_subset all ids name hne s hs).2
 
-/-- FLIP to `true` once the `fix:` commit for F3 (empty non-nil granted list = no stores) is in /repo. -/
-def f3Fixed : Bool := false
+/-- Which variant the checked tree is.  `true` since /repo commit 31b7057 ("fix: ListStores must not list every store
+when the caller's accessible-store list is empty"); before that commit the value was `false`, `liststores_filter`
+was false and `liststores_leak_unfixed` (kept above as documentation of finding F3) was the statement that held. -/
+def f3Fixed : Bool := true
 
 set_option maxRecDepth 100000 in
-/-- which variant the checked tree is (extractor: the guard in `Server.ListStores`), and the backends still treat
-an empty ID list as "no filter" while the command passes the list through untouched -/
+/-- the guard in `Server.ListStores` is present (extractor), the backends still treat an empty ID list as
+"no filter", and the command passes the list through untouched -/
 theorem tie_liststores_guard :
     Gen.Authz.listStoresEmptyGuard = f3Fixed ∧
     Gen.Authz.memoryListStoresIDCond = "len(options.IDs) > 0" ∧ Gen.Authz.sqliteListStoresIDCond = "len(options.IDs) > 0" ∧
     Gen.Authz.listStoresQueryPassesIDs = true := by decide
 
-/-- The statement that is true of the checked tree: the full filter theorem when F3 is fixed, its negation before. -/
-theorem liststores_filter_current :
-    cond f3Fixed (FullListStoresFilter Gen.Authz.listStoresEmptyGuard) (¬ FullListStoresFilter Gen.Authz.listStoresEmptyGuard) := by
-  have h : Gen.Authz.listStoresEmptyGuard = f3Fixed := tie_liststores_guard.1
-  rw [h]
-  first
-    | exact liststores_leak_unfixed
-    | exact liststores_filter_fixed
+/-- **liststores_filter** (full strength, for the handler of the checked tree): whatever stores exist, whatever
+list the authorizer granted (including the empty one) and whatever name filter is given, every store in the
+response is in the granted list.  Removing the guard from `Server.ListStores` breaks `tie_liststores_guard` and
+with it this proof. -/
+theorem liststores_filter : FullListStoresFilter Gen.Authz.listStoresEmptyGuard := by
+  rw [tie_liststores_guard.1]
+  exact liststores_filter_fixed
+
+/-- end to end: what `Server.ListStores` answers for a caller under access control is inside the list the
+authorizer granted -/
+theorem liststores_response_granted (mayList : Except Cause Unit) (granted : Option (List String))
+    (all : List Store) (name : String) (acc : Option (List String))
+    (h : getAccessibleStores false mayList granted = some acc) :
+    ∃ ids, granted = some ids ∧ acc = some ids ∧
+      ∀ s ∈ serverListStores Gen.Authz.listStoresEmptyGuard acc all name, s.id ∈ ids := by
+  unfold getAccessibleStores at h
+  cases mayList with
+  | error e => simp at h
+  | ok u =>
+    cases granted with
+    | none => simp at h
+    | some ids =>
+      simp at h
+      subst h
+      exact ⟨ids, rfl, rfl, liststores_filter all ids name⟩
 
 /-- `getAccessibleStores`: forbidden unless the caller may list stores; the granted list is passed on unchanged -/
 theorem accessible_stores_spec (mayList : Except Cause Unit) (granted : Option (List String)) (r : Option (List String)) :
